@@ -166,9 +166,12 @@ Definition process (ds : list gdecl) (m : vmap) : option (list glit) :=
   | None => None
   end.
 
-(* evaluateGlobalInitializers: initialiser tree of a global variable of scalar type t *)
-Definition process_global (vs : list f64) (t : ty) (e : gexpr) : glit :=
-  make_override_literal t (eval_g vs e).
+(* evaluateGlobalInitializers: initialiser tree of a global variable of scalar type t.
+   It runs after phase 3 replaced every ExprOverride of the global arena by an
+   ExprConstant whose Init is the new literal: an override reference now evaluates to
+   LiteralToFloat of the CONVERTED literal, not to the raw float64 of phase 1. *)
+Definition process_global (lits : list glit) (t : ty) (e : gexpr) : glit :=
+  make_override_literal t (eval_g (map lit_to_float lits) e).
 
 (* @workgroup_size(e): evalConstU32Expr knows literals, `const`s and + - * / on them;
    an override is not a constant: the argument keeps the default 1.  ProcessOverrides
@@ -187,6 +190,25 @@ Fixpoint wg_const (e : expr) : option Z :=
   | _ => None
   end.
 Definition lower_wg (e : expr) : Z := match wg_const e with Some v => v | None => 1 end.
+
+(* ------------------------------------------------------------------ one operator in isolation *)
+(* the subject of the per-operator theorems: the evaluator's operator applied to
+   exactly converted operands, the result made into a literal of type t *)
+Definition glit_of_value (v : value) : glit :=
+  match v with VBool b => GBool b | VI32 z => GI32 z | VU32 z => GU32 z | VF32 f => GF32 f end.
+Definition value_of_glit (l : glit) : value :=
+  match l with GBool b => VBool b | GI32 z => VI32 z | GU32 z => VU32 z | GF32 f => VF32 f end.
+Definition model_binop (o : bop) (t : ty) (a b : value) : value :=
+  value_of_glit (make_override_literal t
+    (eval_binary_float o (lit_to_float (glit_of_value a)) (lit_to_float (glit_of_value b)))).
+Definition model_unop (o : uop) (t : ty) (a : value) : value :=
+  value_of_glit (make_override_literal t (eval_unary_float o (lit_to_float (glit_of_value a)))).
+(* WGSL: the same operator on the same typed operands *)
+Definition spec_binop (o : bop) (a b : value) : res value := do r <- binop o (AV a) (AV b); concretize r.
+Definition spec_unop (o : uop) (a : value) : res value := do r <- unop o (AV a); concretize r.
+(* result type of an operator whose operands have type t *)
+Definition result_ty (o : bop) (t : ty) : ty :=
+  match o with Eq | Ne | Lt | Le | Gt | Ge | LAnd | LOr => TBool | _ => t end.
 
 (* ------------------------------------------------------------------ function bodies *)
 (* rebuildFunctionExpressions: ExprOverride -> ExprConstant (of the new literal);
@@ -316,7 +338,10 @@ Definition msl_resolve_one (m : vmap) (vals : list (option glit)) (d : gdecl) : 
       | Some e =>
           match msl_eval_g vals e with
           | Some l =>
-              (* convertLiteralToType; when it fails the unconverted literal is kept *)
+              (* convertLiteralToType, guarded by `scalar.Kind != 0`: ir.ScalarSint IS 0, so
+                 the default of an i32 override is never converted; when the conversion
+                 fails the unconverted literal is kept *)
+              if ty_eqb (g_ty d) TI32 then Some l else
               match msl_lit_to_float l with
               | Some f => match msl_scalar_value_to_literal (g_ty d) f with
                           | Some l' => Some l'
@@ -344,6 +369,7 @@ Definition msl_resolve (ds : list gdecl) (m : vmap) : list (option glit) := msl_
 Inductive loc :=
 | LOverrides            (* Module.Overrides elements *)
 | LOverrideInitPtr      (* *Override.Init *)
+| LOverrideIdPtr        (* *Override.ID *)
 | LGlobalExprs          (* Module.GlobalExpressions elements *)
 | LConstants            (* Module.Constants elements *)
 | LGlobalVars           (* Module.GlobalVariables elements *)
@@ -361,7 +387,7 @@ Inductive loc :=
 
 Definition loc_eqb (a b : loc) : bool :=
   match a, b with
-  | LOverrides, LOverrides | LOverrideInitPtr, LOverrideInitPtr | LGlobalExprs, LGlobalExprs
+  | LOverrides, LOverrides | LOverrideInitPtr, LOverrideInitPtr | LOverrideIdPtr, LOverrideIdPtr | LGlobalExprs, LGlobalExprs
   | LConstants, LConstants | LGlobalVars, LGlobalVars | LTypes, LTypes | LFunctions, LFunctions
   | LFnExprs, LFnExprs | LFnExprTypes, LFnExprTypes | LFnLocalVars, LFnLocalVars
   | LFnLocalInitPtr, LFnLocalInitPtr | LFnNamedExprs, LFnNamedExprs | LFnBodyTop, LFnBodyTop
@@ -370,13 +396,16 @@ Definition loc_eqb (a b : loc) : bool :=
   end.
 
 (* what CloneModuleForOverrides copies (process_overrides.go:13-118) *)
-Definition cloned : list loc :=
-  [LOverrides; LOverrideInitPtr; LGlobalExprs; LConstants; LFunctions; LFnExprs; LFnExprTypes;
-   LFnLocalVars; LFnLocalInitPtr; LFnNamedExprs; LFnBodyTop].
+Definition module_cloned : list loc :=
+  [LOverrides; LOverrideInitPtr; LOverrideIdPtr; LGlobalExprs; LConstants; LFunctions].
+(* per function, for Module.Functions and for Module.EntryPoints alike *)
+Definition fn_cloned : list loc :=
+  [LFnExprs; LFnExprTypes; LFnLocalVars; LFnLocalInitPtr; LFnNamedExprs; LFnBodyTop].
+Definition cloned : list loc := module_cloned ++ fn_cloned.
 
 (* what ProcessOverrides and its helpers write in place *)
 Definition written : list loc :=
-  [LGlobalExprs; LConstants; LFunctions; LFnExprs; LFnExprTypes; LFnLocalInitPtr; LFnNamedExprs;
+  [LGlobalExprs; LConstants; LFnExprs; LFnExprTypes; LFnLocalInitPtr; LFnNamedExprs;
    LFnBodyTop; LNestedBlocks; LStmtPtrs; LCallArgs].
 
 Definition mem_loc (l : loc) (ls : list loc) : bool := existsb (loc_eqb l) ls.
